@@ -19,6 +19,16 @@ package repository
 // the real forAllLocks and removes those that lockHandle.stale() or a clock ahead
 // by that much judges stale.  The time a process was last robbed of a lock file
 // is part of the observation (LockObs!ExclusionMargin).
+// Schedules with "sema" put the connection limiting backend (internal/backend/sema, as global.Open does)
+// between the repository of a process and the store, so that the forced refresh freezes it
+// (tryRefreshStaleLock); "mod" steps let a worker goroutine of the lock holder issue a
+// non-lock modification (Save / Remove of a pack file) with the lock context.  Every non-lock
+// modification that reaches the layer below the sema backend is recorded with the state of its
+// context at that moment (LockObs!NoWriteAfterCancel).  A worker waiting at the freeze gate
+// sits on a sync.Mutex, which is not "durably blocked" for synctest: while one waits the harness
+// neither calls synctest.Wait nor lets virtual time pass, and it issues a modification into a
+// frozen backend only where the forced refresh can finish without sleeping (after its 200 ms wait,
+// or when the harness made the next operation fail).
 // After every schedule step, after every mutating lock-file operation and at
 // the instant a lock context is cancelled the harness records an observation
 // (lock directory + what every process believes); TLC judges the records
@@ -32,6 +42,7 @@ import (
 	"io"
 	"math/rand"
 	"os"
+	"runtime"
 	"sort"
 	"strconv"
 	"strings"
@@ -43,6 +54,7 @@ import (
 
 	"github.com/restic/restic/internal/backend"
 	"github.com/restic/restic/internal/backend/mem"
+	"github.com/restic/restic/internal/backend/sema"
 	"github.com/restic/restic/internal/restic"
 	kit "github.com/restic/restic/internal/verifkit"
 )
@@ -69,6 +81,7 @@ type vlSched struct {
 	Steps []vlStep `json:"steps"`
 	Lag    bool    `json:"lag"`    // listings of the lock directory show a new file only after vlListLag
 	Budget int     `json:"budget"` // stall budget per process in seconds (0: vlStallBudget)
+	Sema   bool    `json:"sema"`   // the lockers use the store through sema.NewBackend; "mod" steps issue non-lock modifications
 }
 
 type vlWaiter struct {
@@ -102,7 +115,52 @@ type vlProc struct {
 	newest       int64 // time (ms) of the newest lock file this process saved, -1 if none
 	faulted      bool  // a Save/Remove fault was ever injected for this process
 	logs         []string
+
+	// sema schedules (protected by env.mu)
+	top            backend.Backend // top of the backend stack of this process (vlSpy over the sema backend)
+	spy            *vlSpy
+	frozen         bool // between Freeze() and Unfreeze() of the forced refresh
+	opsSinceFreeze int  // lock-file operations that arrived at their gate since Freeze()
+	modSeq         int
+	modsInFlight   int
+	modsBlocked    int // modifications in flight that were issued while the backend was frozen
+	lastMod        backend.Handle
+	lifted         bool
 }
+
+// vlSpy sits on top of the connection limiting backend of a process and sees Freeze / Unfreeze.
+type vlSpy struct {
+	backend.Backend // sema backend
+	e  *vlEnv
+	p  *vlProc
+	mu sync.Mutex
+}
+
+func (s *vlSpy) Freeze() {
+	s.Backend.(backend.FreezeBackend).Freeze()
+	s.mu.Lock()
+	s.e.mu.Lock()
+	s.p.frozen = true
+	s.p.opsSinceFreeze = 0
+	s.e.freezes++
+	s.e.mu.Unlock()
+	s.mu.Unlock()
+}
+
+func (s *vlSpy) Unfreeze() {
+	s.mu.Lock()
+	s.e.mu.Lock()
+	s.p.frozen = false
+	lifted := s.p.lifted
+	s.p.lifted = false
+	s.e.mu.Unlock()
+	if !lifted {
+		s.Backend.(backend.FreezeBackend).Unfreeze()
+	}
+	s.mu.Unlock()
+}
+
+func (s *vlSpy) Unwrap() backend.Backend { return s.Backend }
 
 type vlFileInfo struct {
 	owner int // 1-based process, 100+k remote, 200+k orphan
@@ -148,6 +206,11 @@ type vlEnv struct {
 	created  map[string]time.Time // lock file name -> (virtual) time it was saved
 	hidden   int                  // files hidden from listings by the delay
 	selfRm   map[string]bool      // lock files removed by their owner
+	mods     [][]int64            // non-lock modifications that reached the store: [process, time(ms), context cancelled, issued while frozen]
+	freezes  int
+	blockedN int // modifications that waited at the freeze gate
+	lifts    int // times the harness had to lift a freeze (the forced refresh needed virtual time while a modification waited)
+	modSkips int
 }
 
 var errVlInjected = fmt.Errorf("verif: injected lock backend fault")
@@ -181,8 +244,19 @@ func (b *vlBE) failing(kind string) (dead bool, fail bool, after bool) {
 	return false, false, false
 }
 
+// recordMod notes a non-lock modification that reached the layer below the sema backend
+func (b *vlBE) recordMod(ctx context.Context) {
+	b.e.mu.Lock()
+	defer b.e.mu.Unlock()
+	if b.e.drain {
+		return
+	}
+	b.e.mods = append(b.e.mods, []int64{int64(b.p.idx), b.e.ms(), vlB(ctx.Err() != nil), vlB(b.p.modsBlocked > 0)})
+}
+
 func (b *vlBE) Save(ctx context.Context, h backend.Handle, rd backend.RewindReader) error {
 	if h.Type != backend.LockFile {
+		b.recordMod(ctx)
 		return b.Backend.Save(ctx, h, rd)
 	}
 	dead, fail, after := b.failing("Save")
@@ -207,6 +281,7 @@ func (b *vlBE) Save(ctx context.Context, h backend.Handle, rd backend.RewindRead
 
 func (b *vlBE) Remove(ctx context.Context, h backend.Handle) error {
 	if h.Type != backend.LockFile {
+		b.recordMod(ctx)
 		return b.Backend.Remove(ctx, h)
 	}
 	dead, fail, _ := b.failing("Remove")
@@ -310,6 +385,9 @@ func (e *vlEnv) gate(proc, kind string, h backend.Handle) {
 	if e.drain || p.dead {
 		e.mu.Unlock()
 		return
+	}
+	if p.frozen {
+		p.opsSinceFreeze++
 	}
 	rem := e.budget - p.stallUsed
 	w := &vlWaiter{ch: make(chan struct{}), kind: kind, at: time.Now()}
@@ -507,6 +585,141 @@ func (e *vlEnv) sleep(d time.Duration) {
 	synctest.Wait()
 }
 
+// anyBlocked: some worker may be waiting at the freeze gate of a sema backend (sync.Mutex)
+func (e *vlEnv) anyBlocked() bool {
+	e.mu.Lock()
+	defer e.mu.Unlock()
+	for _, p := range e.procs {
+		if p.modsBlocked > 0 {
+			return true
+		}
+	}
+	return false
+}
+
+// vlGoroutines returns the stack dumps of all goroutines
+func vlGoroutines() []string {
+	buf := make([]byte, 1<<20)
+	for {
+		n := runtime.Stack(buf, true)
+		if n < len(buf) {
+			return strings.Split(string(buf[:n]), "\n\n")
+		}
+		buf = make([]byte, 2*len(buf))
+	}
+}
+
+// settle replaces synctest.Wait after a schedule step.  While a worker waits at the freeze gate (a mutex, not
+// durably blocked) synctest.Wait would never return: spin until the worker is through, or it is parked at the
+// gate and the refresher of its process is parked at its next gate.
+func (e *vlEnv) settle() {
+	if !e.anyBlocked() {
+		synctest.Wait()
+		return
+	}
+	for i := 0; i < 400000; i++ {
+		runtime.Gosched()
+		if !e.anyBlocked() {
+			synctest.Wait()
+			return
+		}
+		if i%50 != 49 {
+			continue
+		}
+		parked, sleeping := false, false
+		for _, g := range vlGoroutines() {
+			if strings.Contains(g, "typeDependentLimit") && (strings.Contains(g, "[sync.Mutex.Lock") || strings.Contains(g, "[semacquire")) {
+				parked = true
+			}
+			if strings.Contains(g, "refreshStaleLock") && strings.Contains(g, "[sleep") {
+				sleeping = true
+			}
+		}
+		e.mu.Lock()
+		atGate := true
+		var bp *vlProc
+		for _, p := range e.procs {
+			if p.modsBlocked > 0 {
+				bp = p
+				if len(p.waiters) == 0 {
+					atGate = false
+				}
+			}
+		}
+		e.mu.Unlock()
+		if parked && atGate {
+			return
+		}
+		if parked && sleeping && bp != nil && bp.spy != nil {
+			// the forced refresh needs virtual time while a modification waits at the gate (not expected with
+			// the unchanged code): lift the freeze for this one modification, so that nothing hangs
+			sp := bp.spy
+			sp.mu.Lock()
+			e.mu.Lock()
+			fr := bp.frozen && !bp.lifted
+			if fr {
+				bp.lifted = true
+				e.lifts++
+			}
+			e.mu.Unlock()
+			if fr {
+				sp.Backend.(backend.FreezeBackend).Unfreeze()
+			}
+			sp.mu.Unlock()
+		}
+	}
+	e.t.Errorf("a modification waiting at the freeze gate did not settle")
+}
+
+// issueMod: the worker of lock holder p issues a non-lock modification with the lock context
+func (e *vlEnv) issueMod(p *vlProc) {
+	e.mu.Lock()
+	ok := p.state == "holding" && !p.dead && !p.unlockCalled && p.wctx != nil && p.top != nil && p.modsInFlight == 0
+	frozen := p.frozen
+	safe := len(p.waiters) > 0 && (p.opsSinceFreeze >= 3 ||
+		(p.opsSinceFreeze == 1 && (p.fail["List"] || p.fail["All"])) ||
+		(p.opsSinceFreeze == 2 && (p.fail["Save"] || p.fail["SaveAfter"] || p.fail["All"])))
+	if !ok || (frozen && !safe) {
+		e.noops++
+		if ok {
+			e.modSkips++
+		}
+		e.mu.Unlock()
+		return
+	}
+	p.modSeq++
+	k := p.modSeq
+	p.modsInFlight++
+	if frozen {
+		p.modsBlocked++
+		e.blockedN++
+	}
+	ctx, top, last := p.wctx, p.top, p.lastMod
+	e.mu.Unlock()
+	e.wg.Add(1)
+	go func() {
+		defer e.wg.Done()
+		var err error
+		if k%2 == 1 || last.Name == "" {
+			data := []byte(fmt.Sprintf("verif modification %s %d", p.name, k))
+			last = backend.Handle{Type: backend.PackFile, Name: restic.Hash(data).String()}
+			err = top.Save(ctx, last, backend.NewByteReader(data, top.Hasher()))
+		} else {
+			err = top.Remove(ctx, last)
+			last = backend.Handle{}
+		}
+		e.mu.Lock()
+		p.modsInFlight--
+		if frozen {
+			p.modsBlocked--
+		}
+		if err == nil {
+			p.lastMod = last
+		}
+		e.mu.Unlock()
+	}()
+}
+
 func (e *vlEnv) logf(p *vlProc) func(string, ...any) {
 	return func(f string, a ...any) {
 		e.mu.Lock()
@@ -682,6 +895,10 @@ type vlRec struct {
 	Noops  int      `json:"noops"` // schedule steps that had nothing to release / did not apply
 	Ops    int      `json:"ops"`   // gated lock-file operations
 	Hidden int      `json:"hidden"` // lock files hidden from listings by the listing delay
+	Mods    [][]int64 `json:"mods"`   // non-lock modifications that reached the store: [process, time(ms), context cancelled, issued while frozen]
+	Freezes int       `json:"freezes"`
+	Blocked int       `json:"blocked"` // modifications that waited at the freeze gate
+	Lifts   int       `json:"lifts"`
 	Logs   []string `json:"logs"`
 	Trace  []string `json:"trace"`
 	Errs   []string `json:"errs"`
@@ -729,7 +946,7 @@ func vlSchedString(s vlSched) string {
 
 // vlRun replays one schedule inside a synctest bubble.
 func vlRun(t *testing.T, base map[backend.Handle][]byte, s vlSched, probes bool) (rec vlRec) {
-	rec = vlRec{ID: s.ID, Fam: s.Fam, N: s.N, Sched: vlSchedString(s), Out: []string{}, Logs: []string{}, Errs: []string{}, Trace: []string{}, Probe: []int64{0, 0}}
+	rec = vlRec{ID: s.ID, Fam: s.Fam, N: s.N, Sched: vlSchedString(s), Out: []string{}, Logs: []string{}, Errs: []string{}, Trace: []string{}, Probe: []int64{0, 0}, Mods: [][]int64{}}
 	synctest.Test(t, func(t *testing.T) {
 		e := &vlEnv{t: t, store: kit.NewStoreFrom(base), byName: map[string]*vlProc{}, owner: map[string]int{}, info: map[string]*vlFileInfo{},
 			remote: [][]int64{}, t0: time.Now(), gateLd: true, budget: vlStallBudget, lag: s.Lag, created: map[string]time.Time{}, selfRm: map[string]bool{}}
@@ -751,7 +968,13 @@ func vlRun(t *testing.T, base map[backend.Handle][]byte, s vlSched, probes bool)
 		e.master = TestOpenBackend(t, e.store.Raw())
 		mk := func(idx int, name string, free bool) *vlProc {
 			p := &vlProc{idx: idx, name: name, state: "idle", free: free, fail: map[string]bool{}, newest: -1}
-			p.repo = TestOpenBackend(t, e.store.Wrap(name, &vlBE{Backend: e.store.Raw(), e: e, p: p}))
+			var be backend.Backend = e.store.Wrap(name, &vlBE{Backend: e.store.Raw(), e: e, p: p})
+			if s.Sema && !free {
+				p.spy = &vlSpy{Backend: sema.NewBackend(be), e: e, p: p}
+				be = p.spy
+			}
+			p.top = be
+			p.repo = TestOpenBackend(t, be)
 			e.byName[name] = p
 			return p
 		}
@@ -782,12 +1005,28 @@ func vlRun(t *testing.T, base map[backend.Handle][]byte, s vlSched, probes bool)
 					e.release(p)
 				}
 			case "wait":
+				if e.anyBlocked() {
+					e.mu.Lock()
+					e.noops++
+					e.mu.Unlock()
+					break
+				}
 				el := time.Since(e.t0)
 				e.sleep(vlWait - el%vlWait)
 			case "tick":
+				if e.anyBlocked() {
+					e.mu.Lock()
+					e.noops++
+					e.mu.Unlock()
+					break
+				}
 				// to the next multiple of the unit
 				el := time.Since(e.t0)
 				e.sleep(vlUnit - el%vlUnit)
+			case "mod":
+				if p != nil && s.Sema {
+					e.issueMod(p)
+				}
 			case "unlock":
 				if p != nil {
 					e.callUnlock(p)
@@ -867,7 +1106,7 @@ func vlRun(t *testing.T, base map[backend.Handle][]byte, s vlSched, probes bool)
 			default:
 				t.Fatalf("unknown schedule op %q", st.Op)
 			}
-			synctest.Wait()
+			e.settle()
 			e.observe(0, 0)
 		}
 		rec.Probe = []int64{0, 0}
@@ -913,10 +1152,15 @@ func vlRun(t *testing.T, base map[backend.Handle][]byte, s vlSched, probes bool)
 			}
 		}
 		rec.Obs, rec.Autos, rec.Noops, rec.Ops, rec.Hidden = e.obs, e.autos, e.noops, e.opsN, e.hidden
+		rec.Mods = append([][]int64{}, e.mods...)
+		rec.Freezes, rec.Blocked, rec.Lifts = e.freezes, e.blockedN, e.lifts
 		rec.Trace = append([]string{}, e.trace...)
 		e.mu.Unlock()
 		for _, w := range ws {
 			close(w.ch)
+		}
+		for k := 0; k < 20 && e.anyBlocked(); k++ {
+			e.settle()
 		}
 		for _, p := range e.procs {
 			e.mu.Lock()
@@ -1034,6 +1278,10 @@ func vlDrive(t *testing.T, rule string, probes bool) {
 		res.Count("released_by_stall_budget", r.Autos)
 		res.Count("schedule_steps_without_effect", r.Noops)
 		res.Count("hidden_by_listing_delay", r.Hidden)
+		res.Count("nonlock_modifications_reaching_store", len(r.Mods))
+		res.Count("backend_freezes", r.Freezes)
+		res.Count("modifications_waiting_at_freeze_gate", r.Blocked)
+		res.Count("freezes_lifted_by_harness", r.Lifts)
 		res.Count("family:"+r.Fam, 1)
 		robbedHolder := false
 		for _, o := range r.Obs {
